@@ -32,7 +32,8 @@
  *   xcollect <tok>*                exact: TLS phase, root phase, then GC_Mark_Item on each word; dump; real GC_Sweep
  *   xraise <id> <tok>*             exact: the same collection, but the Mark instance of ProbeM <id> throws when the marker reaches it: the
  *                                  exception leaves the mark phase, GC_Sweep does not run, the mark bits set so far stay (dumped).  While
- *                                  bits are set, new / pair / copy / chain / del are refused (a registry rehash would clear them).  The next
+ *                                  bits are set, new / pair / copy / chain / del are refused (a registry rehash would clear them).  The set is
+ *                                  dumped when it does not depend on enumeration order (the probe is first reached as a root word), else `*`.  The next
  *                                  mark phase clears those bits first (GC_Unmark, fix d8f0c4f; a tree without it starts from them and
  *                                  loses reachable objects: an ordinary oracle failure).  <id> not reached: as xcollect.
  *   craise <id>                    full: the REAL GC_Mark with the Mark instance of the (reachable) ProbeM <id> throwing: the exception
@@ -576,6 +577,13 @@ static __attribute__((noinline)) void do_xcollect(Tok* words, int nw) {
 
 /* a collection whose mark phase is left by an exception: the Mark instance of probe `id` throws */
 static __attribute__((noinline)) void do_xraise(long id, Tok* words, int nw) {
+  /* Which bits are set when the exception leaves depends on the order in which containers and the registry are enumerated, unless the
+     probe is reached as a root word itself, for the first time, after everything before it has been traced completely: only then is the
+     set dumped (and compared with the model's); otherwise `marked=*`. */
+  int first = -1;
+  for (int i = 0; i < nw && first < 0; i++) if (words[i].t == T_OBJ && words[i].v == id) first = i;
+  int det = 0;
+  if (first >= 0) { shadow_reach(words, first, 0); det = !reach[id]; }
   shadow_reach(words, nw, 0);
   var exc;
   armed_id = id;
@@ -583,7 +591,7 @@ static __attribute__((noinline)) void do_xraise(long id, Tok* words, int nw) {
   armed_id = -1;
   if (!exc) { finish_collect("xr completed"); return; }
   read_marks();
-  O("xr raised marked=%s", set_text(mk, 1));
+  if (det) O("xr raised marked=%s", set_text(mk, 1)); else O("xr raised marked=*");
   I("raise line=%zu exc=%s marked-before=%zu: GC_Sweep skipped, mark bits stay", curline, v_exc_name(exc), stale_before);
   stale_now = 1;
   n_x++;
